@@ -4,6 +4,7 @@
 package main
 
 import (
+	iscperrors "github.com/aptpod/iscp-go/errors"
 	"bytes"
 	"fmt"
 	"strings"
@@ -134,6 +135,7 @@ type wres struct {
 }
 
 type world struct {
+	readerDeadAtFinal, closedAtFinal bool
 	redials         []bool // outcome of every redial attempt, in order
 	deadBeforeClose bool
 	laterN  int
@@ -247,9 +249,14 @@ func (w *world) main() {
 				vsched.Sleep(500*time.Millisecond, "h:server-wait")
 				continue
 			}
-			if vsched.ChooseBudget(fmt.Sprintf("read-fail#%d@%d", f.idx, k), 2, vsched.BudF) == 1 {
+			// a read failure: a reset, or the peer going away (websocket status 1001, e.g. a broker restart): both are redialled
+			if kind := vsched.ChooseBudget(fmt.Sprintf("read-fail#%d@%d", f.idx, k), 3, vsched.BudF); kind != 0 {
 				w.failures++
-				f.readErr = fmt.Errorf("fake: read reset")
+				if kind == 1 {
+					f.readErr = fmt.Errorf("fake: read reset")
+				} else {
+					f.readErr = fmt.Errorf("fake: peer restarts: %w", iscperrors.ErrConnectionGoingAwayClose)
+				}
 				continue
 			}
 			f.inbox = append(f.inbox, []byte(msgs[k]))
@@ -285,6 +292,7 @@ func (w *world) main() {
 	vsched.Sleep(20*time.Second, "h:settle")
 	w.phase = "final"
 	// after exhaustion or Close, later calls must fail instead of blocking; on a healthy transport they work
+	w.readerDeadAtFinal, w.closedAtFinal = w.readerDone, w.closed
 	w.finalW = tr.Write([]byte("final"))
 	if !w.closed && w.finalW == nil {
 		// healthy: do not issue a Read that would legitimately wait for data
@@ -448,6 +456,11 @@ func run(sc vlib.Scenario, cfg vsched.Config) (*vsched.Result, vlib.Verdict) {
 		}
 	}
 	_ = pinged
+	// a failed read is redialled like a failed write: a transport whose Reads have failed for good while its Writes still
+	// work (nobody reads the connection it redialled for them) is neither alive nor dead
+	if w.readerDeadAtFinal && !w.closedAtFinal && w.finalW == nil {
+		v.Fail("C18.read", fmt.Sprintf("reads-dead-writes-alive/dev=%v", dev), "Read had failed for good (%v) although Close had not been called and the redial budget was not exhausted: the next Write still succeeded (%d failures injected, attempt outcomes %v)", w.readErr, w.failures, w.redials)
+	}
 	// after Close: errors, not nil
 	if w.closed && w.finalDone && w.p.Close {
 		if w.finalW == nil {
